@@ -66,6 +66,9 @@ pub enum Outcome<'a> {
     Meta(&'a Metadata),
     /// The operation failed (or was made to fail) with this kind of error.
     Err(ErrorKind),
+    /// The caller's future was dropped (its task aborted) while a mutating operation was in
+    /// flight: whether the operation took effect is not known.
+    Abandoned,
 }
 
 pub trait Interceptor: Send + Sync + 'static {
@@ -75,6 +78,22 @@ pub trait Interceptor: Send + Sync + 'static {
     /// Called after the operation finished (or was made to fail), before the
     /// result is returned to the caller.
     fn after(&self, op: &Op<'_>, outcome: &Outcome<'_>);
+}
+
+/// Reports [Outcome::Abandoned] if it is dropped while still armed, i.e. if the future of a
+/// mutating operation is dropped between `before` and `after`.
+struct AbandonGuard<'a> {
+    interceptor: &'a dyn Interceptor,
+    op: &'a Op<'a>,
+    armed: bool,
+}
+
+impl Drop for AbandonGuard<'_> {
+    fn drop(&mut self) {
+        if self.armed {
+            self.interceptor.after(self.op, &Outcome::Abandoned);
+        }
+    }
 }
 
 pub(super) struct Hooked {
@@ -158,7 +177,14 @@ impl Protocol for Hooked {
             self.interceptor.after(&op, &Outcome::Err(kind));
             return Err(self.injected(kind));
         }
+        let mut guard = AbandonGuard {
+            interceptor: &*self.interceptor,
+            op: &op,
+            armed: true,
+        };
         let r = self.inner.write(relpath, content, mode).await;
+        guard.armed = false;
+        drop(guard);
         match &r {
             Ok(()) => self.interceptor.after(&op, &Outcome::Done),
             Err(e) => self.interceptor.after(&op, &Outcome::Err(e.kind())),
@@ -198,7 +224,14 @@ impl Protocol for Hooked {
             self.interceptor.after(&op, &Outcome::Err(kind));
             return Err(self.injected(kind));
         }
+        let mut guard = AbandonGuard {
+            interceptor: &*self.interceptor,
+            op: &op,
+            armed: true,
+        };
         let r = self.inner.create_dir(relpath).await;
+        guard.armed = false;
+        drop(guard);
         match &r {
             Ok(()) => self.interceptor.after(&op, &Outcome::Done),
             Err(e) => self.interceptor.after(&op, &Outcome::Err(e.kind())),
@@ -238,7 +271,14 @@ impl Protocol for Hooked {
             self.interceptor.after(&op, &Outcome::Err(kind));
             return Err(self.injected(kind));
         }
+        let mut guard = AbandonGuard {
+            interceptor: &*self.interceptor,
+            op: &op,
+            armed: true,
+        };
         let r = self.inner.remove_file(relpath).await;
+        guard.armed = false;
+        drop(guard);
         match &r {
             Ok(()) => self.interceptor.after(&op, &Outcome::Done),
             Err(e) => self.interceptor.after(&op, &Outcome::Err(e.kind())),
@@ -258,7 +298,14 @@ impl Protocol for Hooked {
             self.interceptor.after(&op, &Outcome::Err(kind));
             return Err(self.injected(kind));
         }
+        let mut guard = AbandonGuard {
+            interceptor: &*self.interceptor,
+            op: &op,
+            armed: true,
+        };
         let r = self.inner.remove_dir_all(relpath).await;
+        guard.armed = false;
+        drop(guard);
         match &r {
             Ok(()) => self.interceptor.after(&op, &Outcome::Done),
             Err(e) => self.interceptor.after(&op, &Outcome::Err(e.kind())),
